@@ -26,6 +26,7 @@ import (
 
 	"github.com/99designs/gqlgen/graphql"
 	"github.com/vektah/gqlparser/v2/ast"
+	"github.com/vektah/gqlparser/v2/gqlerror"
 )
 
 // FieldMeta is emitted by gendrv's verifmeta plugin for every object field.
@@ -75,6 +76,8 @@ const (
 	FaultNone Fault = iota
 	FaultError
 	FaultPanic
+	// FaultErrList: the resolver reports several failures at once (it returns a gqlerror.List)
+	FaultErrList
 )
 
 type Sched struct {
@@ -163,6 +166,7 @@ type SeedPlan struct {
 	DirPermille  int // split evenly between error and null outcomes
 	MaxList      int
 	SchedMode    int              // 0 none, 1 random yields, 2 delay by hash, 3 reverse, 4 straggler, 5 slow (ms) delay by hash
+	ListPermille int              // resolver returns a list of three errors
 	ForceFault   map[string]Fault // Key.String() -> fault
 	// FaultInInterceptor: the resolver faults of this plan are raised by the field interceptor that
 	// wraps the resolver (after the resolver returned) instead of by the resolver itself
@@ -186,6 +190,9 @@ func (p *SeedPlan) Fault(k Key) Fault {
 	}
 	if x < p.ErrPermille+p.PanPermille {
 		return FaultPanic
+	}
+	if x < p.ErrPermille+p.PanPermille+p.ListPermille {
+		return FaultErrList
 	}
 	return FaultNone
 }
@@ -511,6 +518,9 @@ func (e *Env) makeResolver(meta FieldMeta, ft reflect.Type) reflect.Value {
 		case FaultPanic:
 			done("panic")
 			panic(PanicText(k))
+		case FaultErrList:
+			done("errors")
+			return []reflect.Value{zero, reflect.ValueOf(ErrList(k)).Convert(errType)}
 		}
 		if stream {
 			n := 3
@@ -563,6 +573,18 @@ func (e *Env) makeResolver(meta FieldMeta, ft reflect.Type) reflect.Value {
 type UserError struct{ Msg string }
 
 func (u *UserError) Error() string { return u.Msg }
+
+// ErrListN is the number of errors a FaultErrList resolver reports.
+const ErrListN = 3
+
+// ErrList is what a FaultErrList resolver returns: several plain errors in one gqlerror.List.
+func ErrList(k Key) gqlerror.List {
+	var l gqlerror.List
+	for i := 0; i < ErrListN; i++ {
+		l = append(l, gqlerror.Errorf("%s#%d", ErrText(k), i))
+	}
+	return l
+}
 
 func ErrText(k Key) string   { return "E!" + strconv.FormatUint(H("err", k.String())%1000000, 36) }
 func PanicText(k Key) string { return "P!" + strconv.FormatUint(H("pan", k.String())%1000000, 36) }
